@@ -52,9 +52,39 @@ def check(repo, col, tier):
     c01._layout(repo, col, "R-C13-layout")
     col.rule("R-C13-ends", "re-initialised branch-point edges attach at each branch's own first / last compartment", 4)
     c01_solver._ends(repo, col, "R-C13-ends")
+    col.rule("R-C13-uniform", "the branch is tested for uniformity by comparing values, never through floating-point statistics", 4)
+    uniformity_guards(repo, col, fi, ex, "R-C13-uniform")
     col.rule("R-C13-iter", "branches are handed out one at a time, so set_ncomp inside a loop over branches sees current rows", 2)
     from . import c11
     c11.lazy_iteration(repo, col, "R-C13-iter")
+
+
+def uniformity_guards(repo, col, fi, ex, R):
+    """set_ncomp averages the rows of the branch, which is only right for a uniform branch; it refuses anything else.  The test
+    has to be exact: `df.var() == 0.0` is NOT -- the sample variance of n identical floats is not exactly zero for many n (3, 6, 7
+    rows of 0.12), it is NaN for one row and NaN for the columns of a channel that lives elsewhere in the cell.  A uniform branch
+    would then be refused (F23).  Every refusing guard is held to a comparison of the values themselves."""
+    guards = [n for n in walk_no_nested(fi.node) if isinstance(n, ast.If) and any(isinstance(b, ast.Raise) for b in n.body)]
+    n_u = 0
+    for g in guards:
+        t = ex.term(g.test)
+        tabular = T.find(t, lambda x: (x.op == "attr" and x.name == "nodes") or (x.op == "mcall" and x.name == "to_numpy")) is not None
+        if not tabular:
+            continue
+        n_u += 1
+        stat = T.find(t, lambda x: x.op == "mcall" and x.name in ("var", "std", "mean", "sum", "ptp") and
+                      T.find(x, lambda y: y.op == "mcall" and y.name in ("nunique", "unique", "duplicated")) is None and
+                      T.find(x, lambda y: y.op == "cmp" and y.name in ("==", "!=")) is None)
+        exact = T.find(t, lambda x: (x.op == "cmp" and x.name in ("==", "!=", "<=", ">") and stat is None) or
+                       (x.op == "mcall" and x.name in ("nunique", "unique", "duplicated", "equals", "array_equal"))) is not None
+        col.add(R, fi, f"`{unparse(g.test)[:70]}` compares the values themselves",
+                "VIOLATED" if stat is not None else ("DISCHARGED" if exact else "UNDECIDED"),
+                "equality / number of distinct values" if stat is None else
+                f"uniformity is decided from `{stat.short(60)}`: a floating-point statistic of identical values is not exactly the value "
+                f"that is tested for (var() of [0.12]*3 is 2.9e-34, of one row NaN, of an absent channel's NaN column NaN): set_ncomp raises "
+                f"ValueError for a uniform branch", node=g)
+    if n_u < 4:
+        raise AnalysisError(f"set_ncomp: only {n_u} uniformity guards found (radius, length/capacitance/axial_resistivity, channels, channel parameters)")
 
 
 def relabel(repo, col, R):
